@@ -148,6 +148,12 @@ func vEdit() {
 		// must keep its record through a collection, although the record still names the removed label)
 		names := vFunctionNames()
 		top := names[len(names)-1]
+		if vDropped[top] && vCollectedWhileDropped {
+			// C14 quantifies over histories in which a removed label is not re-created after a
+			// collection (forgetting it is the point of collecting): restoring the edge now is outside
+			vReach("edit-nothing")
+			break
+		}
 		vDropped[top] = !vDropped[top]
 		vReach("edit-drop-dependency")
 	case "break-dependency":
@@ -508,7 +514,9 @@ func vEvaluatingSet() map[string]bool {
 
 // ---------------------------------------------------------------- harness entry points
 
-var vPlans = []string{"", "EB", "EBB", "BEB", "EEB", "EBE", "G", "EBG", "GEB", "EG"}
+var vCollectedWhileDropped bool
+
+var vPlans = []string{"", "EB", "EBB", "BEB", "EEB", "EBE", "G", "EBG", "GEB", "EG", "EGE"}
 
 // vCollect: `dawn gc` — a fresh load of the project followed by Project.GC. It must not change what
 // the following builds execute (C14), which the C01/C02 oracles of the later builds then check.
@@ -525,6 +533,9 @@ func vCollect() {
 		gcErr = proj.GC()
 	}
 	vAssert(gcErr == nil, "C14: the collection fails")
+	for _, d := range vDropped {
+		vCollectedWhileDropped = vCollectedWhileDropped || d
+	}
 	for _, p := range vRemoved {
 		vAssert(len(p) > len(vWork) && p[:len(vWork)+1] == vWork+"/", "C14: the collection removed something outside the build directory")
 	}
